@@ -181,7 +181,7 @@ def reference():
 
 
 def rule_ref():
-    return ident
+    return qualified_ident
 
 
 # TODO: Remove "|" optional sep in version 4.0.
@@ -219,7 +219,7 @@ def ident():
 
 
 def qualified_ident():
-    return _(r"\w+(\.\w+)?")
+    return _(r"\w+(\.\w+)*")
 
 
 def integer():
